@@ -12,7 +12,7 @@ import sys
 
 sys.path.insert(0, os.path.dirname(os.path.dirname(os.path.abspath(__file__))))
 from sa import core, cyfront, kernels, hints, terms as tm
-from sa.cyfront import tname, walk
+from sa.cyfront import tname, tstr, walk
 from sa.kernels import Kernel, Undecided, unwrap
 from sa.pyfront import Program
 from sa.symex import Interp
@@ -30,6 +30,8 @@ RULES = {
     "R-C08-k": "multi-way union: the merge loop normalises to reset / scan / exit / emit / advance and each part's finite decision table (cursor vs limit, marker vs reset value, head vs minimum) equals the required one; "
                "the flat buffers are the concatenation, its exclusive and inclusive prefix sums; the count starts at 0 and the filled prefix is returned; the empty case returns an empty array",
     "R-C08-l": "the C scalars that cache element values, and the result view, are at least as wide as the elements (uint32): a signed or narrower cache reorders large row ids",
+    "R-C08-n": "the kernels' array parameters are general typed memoryviews ([:]): a C-contiguous declaration ([::1]) rejects strided operands, which are legitimate strictly increasing arrays",
+    "R-C08-m": "row ids take part only in loads, stores and comparisons: an addition or multiplication on a uint32 row id in a 32-bit type wraps at 2^32 (the inputs include 2^32 - 1); expected count 0",
     "R-C08-g": "callers pass operands in the order the operation's asymmetry requires (receiver's rows on the left)",
 }
 OPS = ("intersection", "union", "difference")
@@ -63,7 +65,7 @@ def check_kernel(rep, op, cyf):
     types = {}
     for x in walk(cyf.node):
         if tname(x) == "NameNode" and getattr(x, "type", None) is not None:
-            types.setdefault(x.name, str(x.type))
+            types.setdefault(x.name, tstr(x.type))
     for side in ("L", "R"):
         et = types.get(k.arr[side], "").replace("const ", "")
         et = et[:-3] if et.endswith("[:]") else et
@@ -328,8 +330,8 @@ def check_many(rep, funcs):
         _k = None
     f.kway = _k
     for x in walk(f.node.body):
-        if tname(x) == "SingleAssignmentNode" and tname(x.lhs) == "NameNode" and str(x.lhs.type).endswith("[:]") and x.lhs.name == vname:
-            elem_t = str(x.lhs.type)[:-3]
+        if tname(x) == "SingleAssignmentNode" and tname(x.lhs) == "NameNode" and tstr(x.lhs.type).endswith("[:]") and x.lhs.name == vname:
+            elem_t = tstr(x.lhs.type)[:-3]
     loops = [x for x in walk(f.node.body) if tname(x) == "WhileStatNode"]
     if not loops or elem_t is None:
         rep.undecided("R-C08-e", where, "k-way merge schema", "cannot find the merge loop / value buffer")
@@ -533,6 +535,65 @@ def check_kway(rep, funcs):
     return n
 
 
+def check_general_views(rep, funcs, rule="R-C08-n"):
+    """The kernels accept every strictly increasing uint32 array, whatever its memory layout: a parameter declared
+    C-contiguous (`[::1]`) makes Cython raise ValueError('ndarray is not C-contiguous') for a strided view such as
+    rows[::2], which is a legitimate operand (and a legitimate row-id array of an index)."""
+    n = 0
+    for f in funcs:
+        for a in f.node.args:
+            t = str(a.type)
+            if "[" not in t or not t.replace("const ", "").startswith("uint32["):
+                continue
+            n += 1
+            where = "set_operations:%s" % f.name
+            rep.check("::1" not in t, rule, where, "%s: parameter %s accepts strided views" % (f.name, a.name), t,
+                      "declared %s: a non-contiguous operand (a[::2], a reversed or column view) is rejected with ValueError before the merge starts" % t,
+                      witness={"inputs": "%s(numpy.arange(10, dtype='uint32')[::2], ...)" % f.name})
+    return n
+
+
+def check_value_arithmetic(rep, funcs):
+    """R-C08-m: element values (row ids, uint32) take part only in loads, stores and comparisons.  `value + k` computed in
+    a 32-bit unsigned type wraps at 2^32, and the property includes arrays that contain 2^32 - 1; subtraction of element
+    values and arithmetic in a wider type are not decided here.  Expected count 0 on the current kernels."""
+    from sa.kway import WIDTH
+    n = hits = 0
+    for f in funcs:
+        if f.boundscheck:
+            continue
+        where = "set_operations:%s" % f.name
+        elem_arrays = {a.name for a in f.node.args if str(a.type).replace("const ", "").startswith("uint32[")}
+        for x in walk(f.node.body):
+            if tname(x) == "SingleAssignmentNode" and tname(x.lhs) == "NameNode" and str(x.lhs.type).replace("const ", "").startswith("uint32["):
+                elem_arrays.add(x.lhs.name)
+
+        def is_elem(e):
+            e = unwrap(e)
+            t = str(getattr(e, "type", "")).replace("const ", "")
+            if tname(e) == "NameNode" and t in ("uint32", "unsigned int", "uint32_t"):
+                return True
+            return tname(e) == "MemoryViewIndexNode" and tname(unwrap(e.base)) == "NameNode" and unwrap(e.base).name in elem_arrays
+        for x in walk(f.node.body):
+            k = tname(x)
+            if k not in ("AddNode", "SubNode", "MulNode"):
+                continue
+            n += 1
+            if not (is_elem(x.operand1) or is_elem(x.operand2)):
+                continue
+            hits += 1
+            rt = str(getattr(x, "type", "")).replace("const ", "")
+            w = WIDTH.get(rt)
+            at = "%s@%d" % (where, x.pos[1])
+            if k in ("AddNode", "MulNode") and w is not None and w <= 32:
+                rep.violated("R-C08-m", at, "arithmetic on an element value", "a row id is %s in the %d-bit type %s: for ids near 2^32 - 1 the result wraps to a small number, and the comparison or index it feeds goes the wrong way"
+                             % ("added to" if k == "AddNode" else "multiplied", w, rt), witness={"inputs": "an operand that contains 4294967295 (e.g. difference([5, 4294967295], [4294967295]))"})
+            else:
+                rep.undecided("R-C08-m", at, "arithmetic on an element value", "%s on a row id (result type %s): outside the comparison-only schema the decision tables rest on" % (k, rt))
+    if hits == 0:
+        rep.proved("R-C08-m", "set_operations", "element values take part only in loads, stores and comparisons", "%d arithmetic nodes in the unchecked kernels, none on a row id" % n)
+
+
 def check_callers(rep, prog):
     n = 0
     # _walk: intersect(base_rowids, rowids) with the raw kernel
@@ -598,6 +659,8 @@ def main(tier):
     rep.floor("R-C08-d", 30, nw)
     check_many(rep, funcs)
     check_kway(rep, funcs)
+    check_value_arithmetic(rep, funcs)
+    rep.floor("R-C08-n", 6, check_general_views(rep, funcs))
     check_callers(rep, prog)
     rep.analysed["kernels"] = [f.name for f in funcs]
     return rep.finish()
